@@ -63,3 +63,93 @@ Example dep_example :
               df_services := [[ {| me_in := a; me_out := b |} ]] |} in
   goTypes (gen_tables f) = [e; a; b; x] /\ depIdxs (gen_tables f) = [2; 0; 3; 1; 1; 2; 5; 4; 4; 4; 0].
 Proof. vm_compute. split; reflexivity. Qed.
+
+(* ---- translator tie for the plain Go API (DESIGN 12.7, tasks/T14.md): the declarations the protoc-gen-go part of the plugin prints
+   for a message type — struct declaration with its struct tags, oneof wrapper types, getters, Reset — as data (Model/ApiProg.v:
+   canon_prog, computed from the schema and the message's naming context; the generated source is translated into the same
+   syntax and compared with it on every run by the engine apiprog), interpreted over the heap of Go objects of Model/Reflect.v.
+   Proofs: Proofs/ApiProgProofs.v. (Required here, after the theorems above: Schema.v's field record shadows GenNames.v's.) *)
+From CP Require Import Reflect ReflectProg ApiProg ApiProgProofs.
+
+(* "getters (also on nil receivers) return what Get returns": for every wf schema, heap satisfying the invariant of ReflectProg.v,
+   receiver (Some object / None = the nil pointer), naming context of the right shape and field, the canonical getter returns a Go
+   value related by api_rel to the protoreflect.Value that Reflect.step's Get returns: equal scalars; the same message pointer
+   (nil where Get returns the read-only typed-nil message); for a list / map the slice / map held, where Get returns the invalid
+   view exactly when it has no elements (nil or empty) and otherwise a view of that very field with those contents *)
+Theorem getter_api_correct : getter_api_stmt.
+Proof. exact ApiProgProofs.getter_api_correct. Qed.
+
+(* on the nil receiver a getter returns the zero value of its Go type (nil slice / map / pointer / []byte, "", 0, false, enum 0) *)
+Theorem getter_nil_api_correct : getter_nil_api_stmt.
+Proof. exact ApiProgProofs.getter_nil_api_correct. Qed.
+
+(* the oneof getter Get<O>() returns the wrapper of the member that WhichOneof names (nil: none), nil receiver included *)
+Theorem ogetter_api_correct : ogetter_api_stmt.
+Proof. exact ApiProgProofs.ogetter_api_correct. Qed.
+
+(* "Reset empties the message": the object becomes the freshly allocated one (every other heap entry untouched), … *)
+Theorem reset_api_correct : reset_api_stmt.
+Proof. exact ApiProgProofs.reset_api_correct. Qed.
+(* … Reset of the nil pointer panics (`*x = T{}`), … *)
+Theorem reset_nil_api_correct : reset_nil_api_stmt.
+Proof. exact ApiProgProofs.reset_nil_api_correct. Qed.
+(* … the heap invariant is kept (so that the statements apply along every history that contains Reset), … *)
+Theorem reset_keeps_ok_api_correct : reset_keeps_ok_api_stmt.
+Proof. exact ApiProgProofs.reset_keeps_ok_api_correct. Qed.
+(* … and afterwards Has is false for every field and every getter returns its zero value *)
+Theorem reset_empties_api_correct : reset_empties_api_stmt.
+Proof. exact ApiProgProofs.reset_empties_api_correct. Qed.
+
+(* struct layout: what the reflect-based name -> index maps of the runner (values.go) and of every translator rely on. The Go
+   field of a field outside a oneof stands at position 3 + (number of Go fields printed for the fields before it), is the one
+   genMessageField prints (Go name, Go type, protobuf tag with the wire word, number, label, packed, name, json, proto3, enum the
+   descriptor implies, json tag, map key / value tags) and is the only Go field of the struct whose tag carries that number *)
+Theorem struct_layout_field_correct : struct_layout_field_stmt.
+Proof. exact ApiProgProofs.struct_layout_field_correct. Qed.
+(* the interface field of a oneof stands where the oneof's first member is declared and is the only field tagged
+   protobuf_oneof:"<its name>"; the wrapper type of each member is declared with the oneof and is the only wrapper of the message
+   whose payload tag carries the member's number *)
+Theorem struct_layout_oneof_correct : struct_layout_oneof_stmt.
+Proof. exact ApiProgProofs.struct_layout_oneof_correct. Qed.
+(* exactly one Go field per field outside a oneof and per oneof with a member, after state / sizeCache / unknownFields … *)
+Theorem struct_layout_count_correct : struct_layout_count_stmt.
+Proof. exact ApiProgProofs.struct_layout_count_correct. Qed.
+(* … in declaration order *)
+Theorem struct_layout_order_correct : struct_layout_order_stmt.
+Proof. exact ApiProgProofs.struct_layout_order_correct. Qed.
+
+(* non-vacuity. message 0 "T": x int32 = 1; oneof o { a string = 2; b T = 3 }; r repeated int64 = 4 [packed]; m map<string,int32> = 5;
+   e enum E = 6. The struct has 3 + 5 Go fields (x, the interface field O, r, m, e); the naming context is consistent and the layout
+   law holds; on the struct built from (x = 7, o = b holding nil, r = [1, 2], m nil, e = 0) the getters return 7, "" (a is not the
+   member set), the nil pointer held by the wrapper, the slice, the nil map, 0; the oneof getter returns the wrapper of member 2;
+   Reset leaves the empty struct; the index printed into Reset is the message's position in the file's flattened order. *)
+Example ex_api_prog :
+  let ex_sch : schema :=
+  [ {| m_fields := [ {| f_num := 1; f_ty := TScalar KInt32; f_shape := Singular |};
+                     {| f_num := 2; f_ty := TScalar KString; f_shape := Member 0 |};
+                     {| f_num := 3; f_ty := TMsg 0; f_shape := Member 0 |};
+                     {| f_num := 4; f_ty := TScalar KInt64; f_shape := Rep true |};
+                     {| f_num := 5; f_ty := TScalar KInt32; f_shape := MapOf KString |};
+                     {| f_num := 6; f_ty := TScalar KEnum; f_shape := Singular |} ];
+       m_oneofs := 1; m_impl := Pulsar |} ] in
+  let nm : amnames :=
+    mkMNames ["T"] [ mkFNames ["x"] ["x"] ["X"] [] [] [] false 0; mkFNames ["a"] ["a"] ["A"] ["T"; "_"; "A"] [] [] false 0;
+                     mkFNames ["b"] ["b"] ["B"] ["T"; "_"; "B"] [] [] false 0; mkFNames ["r"] ["r"] ["R"] [] [] [] false 0;
+                     mkFNames ["m"] ["m"] ["M"] [] [] [] false 0; mkFNames ["e"] ["e"] ["E"] [] ["p"; "."; "E"] ["E"] true 0 ]
+             [ mkONames ["o"] ["O"] ["i"; "s"; "T"; "_"; "O"] ] ["v"] [MT ["S"] [MT ["U"] []]; MT ["T"] []] [["T"]] in
+  let prog := canon_prog ex_sch 0 nm in
+  let v := VMsg [VInt 7; VNil; VSome VNil; VList [VInt 1; VInt 2]; VNil; VInt 0] [] in
+  let h := fst (load ex_sch 8 [] 0 v) in
+  wf ex_sch = true /\ api_names_okb ex_sch 0 nm = true /\ api_layout_law ex_sch 0 nm = true /\ rp_heap_okb ex_sch h = true /\
+  map gf_name (as_fields (ap_struct prog)) = [api_s_state; api_s_sizecache; api_s_unknown; ["X"]; ["O"]; ["R"]; ["M"]; ["E"]] /\
+  nth_error (as_fields (ap_struct prog)) 5 =
+    Some (mkGoField ["R"] (ATSlice ATInt64) (TGField (mkPTag AWVarint 4 ALRep true ["r"] None true None false) ["r"])) /\
+  map (fun f => run_getter ex_sch prog h 0 (Some 0%nat) f) (seq 0 6) =
+    [Some (AVScalar (VInt 7)); Some (AVScalar (VBytes [])); Some (AVMsg 0 None); Some (AVList (TScalar KInt64) (Some [EScalar (VInt 1); EScalar (VInt 2)]));
+     Some (AVMap KString (TScalar KInt32) None); Some (AVScalar (VInt 0))] /\
+  run_ogetter ex_sch prog h 0 (Some 0%nat) 0 = Some (AVOneof (Some (2%nat, EPtr None))) /\
+  run_reset ex_sch (ap_reset prog) h 0 (Some 0%nat) = Some ([HObj (new_obj ex_sch 0)], AVUnit) /\
+  ap_reset prog = ARReset 0 ["v"] (Some 1) /\
+  forallb (fun f => api_getter_law ex_sch 0 nm h (Some 0%nat) f && api_getter_law ex_sch 0 nm h None f) (seq 0 6) = true /\
+  api_reset_law ex_sch 0 nm h (Some 0%nat) = true.
+Proof. vm_compute. repeat split; reflexivity. Qed.
